@@ -38,6 +38,7 @@ type sched struct {
 	onces    map[*value]bool
 	schedChoice bool // select / wakeup order are choice points
 	closeYield  bool // with schedChoice: closing a channel is a scheduling point too
+	tickerTicks int  // ticks every time.Ticker can still deliver when created
 	files       map[*value]*memFile
 	fileOrder   []*value
 	hashes      []hashCall
@@ -220,6 +221,8 @@ type gchan struct {
 	slot      value
 	slotOwner *gor
 	recvWait  int
+	ticks     int   // ticker channel: ticks that may still be delivered (a tick is ready whenever asked for)
+	tickVal   value // the time.Time delivered by a tick
 }
 
 func (i *interpreter) chanSend(ch *gchan, v value) {
@@ -301,6 +304,11 @@ func (i *interpreter) chanRecv(ch *gchan) (value, bool) {
 }
 
 func (ch *gchan) tryRecv(sc *sched) (v value, ok bool, got bool) {
+	if ch.ticks > 0 && len(ch.buf) == 0 {
+		ch.ticks--
+		sc.bump()
+		return ch.tickVal, true, true
+	}
 	if len(ch.buf) > 0 {
 		v = ch.buf[0]
 		ch.buf = ch.buf[1:]
@@ -391,7 +399,7 @@ func (i *interpreter) doSelect(fr *frame, instr *ssa.Select) value {
 				if c.ch.closed || len(c.ch.buf) < c.ch.cap || (c.ch.cap == 0 && !c.ch.slotFull && c.ch.recvWait > 0) {
 					ready = append(ready, k)
 				}
-			} else if len(c.ch.buf) > 0 || c.ch.slotFull || c.ch.closed {
+			} else if len(c.ch.buf) > 0 || c.ch.slotFull || c.ch.closed || c.ch.ticks > 0 {
 				ready = append(ready, k)
 			}
 		}
@@ -570,13 +578,35 @@ func init() {
 	externals["time.Sleep"] = func(fr *frame, a []value) value { fr.i.yield(false); return nil }
 	// Tickers and timers never fire within a run: the channel exists and stays empty.
 	// (wrgl uses them for progress reporting only; listed as a stub by the harnesses.)
+	// With the obligation option ticker_ticks = k a Ticker delivers up to k ticks, each one
+	// ready whenever a goroutine asks (time is not modelled: a tick can fall between any two
+	// steps of the other goroutines, and which select case wins is the scheduler's choice).
 	newTick := func(fr *frame, a []value) value {
 		var v value = structure{&gchan{cap: 1}, true}
 		return &v
 	}
-	externals["time.NewTicker"] = newTick
+	externals["time.NewTicker"] = func(fr *frame, a []value) value {
+		ch := &gchan{cap: 1}
+		if k := fr.i.sc.tickerTicks; k > 0 {
+			if tp := fr.i.prog.ImportedPackage("time"); tp != nil {
+				ch.ticks = k
+				ch.tickVal = zero(tp.Type("Time").Type())
+			}
+		}
+		var v value = structure{ch, true}
+		return &v
+	}
 	externals["time.NewTimer"] = newTick
-	externals["(*time.Ticker).Stop"] = func(fr *frame, a []value) value { return nil }
+	externals["(*time.Ticker).Stop"] = func(fr *frame, a []value) value {
+		if p, ok := a[0].(*value); ok && p != nil {
+			if st, ok := (*p).(structure); ok && len(st) > 0 {
+				if ch, ok := st[0].(*gchan); ok {
+					ch.ticks = 0
+				}
+			}
+		}
+		return nil
+	}
 	externals["(*time.Ticker).Reset"] = func(fr *frame, a []value) value { return nil }
 	externals["(*time.Timer).Stop"] = func(fr *frame, a []value) value { return true }
 	externals["(*time.Timer).Reset"] = func(fr *frame, a []value) value { return true }
@@ -620,7 +650,7 @@ func init() {
 		for {
 			var ready []int
 			for k, r := range rcs {
-				if r.dir == 2 && r.ch != nil && (len(r.ch.buf) > 0 || r.ch.slotFull || r.ch.closed) {
+				if r.dir == 2 && r.ch != nil && (len(r.ch.buf) > 0 || r.ch.slotFull || r.ch.closed || r.ch.ticks > 0) {
 					ready = append(ready, k)
 				}
 			}
